@@ -323,6 +323,12 @@ def compile_batches(chk, r, items, outcomes, tier):
         for form in ("optional", "optional = nullable"):
             gen = "<T>" if ty == "T" else ""
             b_entries.append((f"B{j}{'n' if 'null' in form else 'o'}", f"struct OptB{j}{'n' if 'null' in form else 'o'}{gen} {{ #[ts({form})] f: {ty}, g: Option<i32> }}"))
+            # ... also inside a struct that makes its Option fields optional anyway, and in a struct variant
+            for k, cattr in enumerate(["#[ts(optional_fields)] ", "#[ts(optional_fields = nullable)] "]):
+                sfx = f"{j}{'n' if 'null' in form else 'o'}c{k}"
+                b_entries.append((f"B{sfx}", f"{cattr}struct OptB{sfx}{gen} {{ #[ts({form})] f: {ty}, g: Option<i32> }}"))
+            sfx = f"{j}{'n' if 'null' in form else 'o'}v"
+            b_entries.append((f"B{sfx}", f"enum OptB{sfx}{gen} {{ V {{ #[ts({form})] f: {ty}, g: Option<i32> }}, W }}"))
     text, owner = render_batch(b_entries)
     write_lib_crate("c16_b", text)
     rc, errs, out = check_crate("c16_b")
